@@ -186,11 +186,30 @@ def run(chk: Check) -> None:
     od = prog.func('communications.plum_to_kiwi_future.on_done')
     rvs = [norm(n.targets[0]) for n in ast.walk(od.node) if isinstance(n, ast.Assign) and isinstance(n.value, ast.Call) and last_name(n.value) == 'result' and isinstance(n.targets[0], ast.Name)]
     rv2 = rvs[0] if len(rvs) == 1 else 'result'   # the local that holds what the loop future resolved to
-    conv = [n for n in ast.walk(od.node) if isinstance(n, ast.If) and f'isinstance({rv2}' in norm(n.test) and 'Future' in norm(n.test)]
-    ok = bool(conv) and any(isinstance(s, ast.Assign) and norm(s.targets[0]) == rv2 and isinstance(s.value, ast.Call)
-                            and last_name(s.value) == 'plum_to_kiwi_future' and [norm(a) for a in s.value.args] == [rv2] for s in conv[0].body)
-    sr = [c for c in calls_in_func(od, 'set_result')]
-    ok = ok and len(sr) == 1 and [norm(a) for a in sr[0].args] == [rv2]
+    # decision table over "what the loop future resolved to is itself a loop future": the value delivered is the mirror of that future when it is one, the
+    # value itself when it is not -- on every path, whether the conversion re-binds the local or is written at the call
+    from ..decisions import leaf as _leaf, paths_under as _pu, value_on_path as _vop
+    odf = chk.ctx.facts.analyse(od)
+    tests = [m for m in odf.cfg.nodes if m.kind == 'test' and f'isinstance({rv2}' in norm(m.ast.test) and 'Future' in norm(m.ast.test)]
+    ok = bool(tests)
+    if ok:
+        K = _leaf(odf, tests[0].ast.test)[0]
+        seen = {True: 0, False: 0}
+        for isf in (True, False):
+            for path in _pu(odf, {K: isf}, frozen=[rv2]):
+                if path[-1] is not odf.cfg.exit:
+                    continue
+                hits = [(i, c) for i, m in enumerate(path) for c in (walk_shallow(m.expr()) if m.expr() is not None else []) if isinstance(c, ast.Call) and last_name(c) == 'set_result']
+                if not hits:
+                    continue   # (the cancelled branch)
+                seen[isf] += 1
+                i, c = hits[-1]
+                first = next((j for j, m in enumerate(path) if m.kind == 'stmt' and isinstance(m.ast, ast.Assign) and norm(m.ast.targets[0]) == rv2), 0)
+                orig = norm(path[first].ast.value) if path[first].kind == 'stmt' and isinstance(path[first].ast, ast.Assign) else rv2
+                got = norm(_vop(path, i, c.args[0])) if len(c.args) == 1 else ''
+                want = f'plum_to_kiwi_future({orig})' if isf else orig
+                ok = ok and len(hits) == 1 and got == want
+        ok = ok and seen[True] > 0 and seen[False] > 0
     chk.ob('FUT-unwrap', od, ok, 'a loop future resolving to a loop future is mirrored recursively, the final value is delivered', kind='nested-converted')
     # "a loop future" is what that isinstance test accepts: plumpy's ``futures.Future`` IS ``asyncio.Future``, so tasks, loop.create_future() and wrapped
     # futures all count.  Made a class of its own, only plumpy's instances do: a coroutine answering with a plain asyncio future / task is delivered as
@@ -198,7 +217,7 @@ def run(chk: Check) -> None:
     fm = prog.module('futures')
     fv = fm.constants.get('Future')
     okf = fv is not None and norm(fv) in ('asyncio.Future', 'asyncio.futures.Future')
-    test_cls = [norm(n.test) for n in conv] if conv else []
+    test_cls = [norm(m.ast.test) for m in tests]
     uses_alias = bool(test_cls) and all(('futures.Future' in t or 'asyncio.Future' in t) for t in test_cls)
     chk.ob('FUT-unwrap', 'futures.Future', (okf or not any('futures.Future' in t for t in test_cls)) and uses_alias,
            'the nested-future test recognises every asyncio future (futures.Future is asyncio.Future itself)' if okf else
